@@ -203,9 +203,11 @@ def run_check(pid, runner, tier, seed):
     try:
         runner(chk)
     except AnalysisError as e:
+        chk.rule_filter, chk.rule_prefix = None, ""     # an imported rule set may have been active: never filter this
         chk.unknown("analysis", "engine", str(e))
     except Exception as e:      # an engine bug is never a verdict
         import traceback
         traceback.print_exc()
+        chk.rule_filter, chk.rule_prefix = None, ""
         chk.unknown("analysis", "engine-crash", "%s: %s" % (type(e).__name__, e))
     return chk.finish()
